@@ -53,12 +53,19 @@ def run(ctx):
         "SubTolExps": {1, 4, 9, 99} if quick else {0, 1, 2, 4, 6, 9, 12, 99},
         "SnapLevels": set(range(0, 31)),
         "SnapExps": set(range(0, 11)),
+        # equator-crossing edges in integer degrees (some across the antimeridian), 24 log-spaced tolerances 1e-4..1e-1
+        "SweepSouth": set(rnd.sample([5, 10, 15, 20, 30, 40], 2 if quick else 4)) | {10},
+        "SweepNorth": set(rnd.sample([5, 10, 15, 25, 30, 45], 2 if quick else 4)) | {10},
+        "SweepLng": {0, 170} | (set() if quick else {rnd.randrange(0, 360), 150, 179}),
+        "SweepDLng": set(rnd.sample([20, 30, 40, 50, 60, 70, 80], 2 if quick else 5)) | {40},
+        "SweepTols": set(range(0, 24)),
     }
-    r = ctx.tlc("Gen_Approx", vlib.cfg(constants=consts, invariants=["ClassThm", "Emit"]), workers=8, timeout=1200)
+    r = ctx.tlc("Gen_Approx", vlib.cfg(constants=consts, invariants=["ClassThm", "SweepThm", "Emit"]), workers=8, timeout=1200)
     cases = r.tagged.get("CASE", [])
     rnd.shuffle(cases)
     tess = [c for c in cases if c["op"] == "c20.tess"]
     other = [c for c in cases if c["op"] != "c20.tess"]
+    ctx.log("sweep cases: %d" % sum(1 for c in other if c["op"] == "c20.sweep"))
     if quick:
         tess = tess[:3600]
     for c in tess + other:
